@@ -277,7 +277,9 @@ impl EqualityConstraint {
     /// // Normalizes to: -2x + y - 3z = 4
     /// ```
     pub fn new(coefficients: Vec<f64>, rhs: f64) -> EqualityConstraint {
-        match float_lt(rhs, 0.0) {
+        // exact test: standard form needs every right-hand side non-negative,
+        // however small its magnitude
+        match rhs < 0.0 {
             true => EqualityConstraint {
                 coefficients: coefficients.iter().map(|c| c * -1.0).collect(),
                 rhs: -rhs,
